@@ -54,7 +54,7 @@ def _replay(test, overlay, cases, what, repo=None, timeout=900):
 
 FM_OVERLAY = {"compose/zz_verif_fieldmap_test.go": os.path.join(H, "zz_verif_fieldmap_test.go")}
 FM_SRC = ["S", "N", "AIS", "BPS", "Mk", "XIS", "AX", "AI", "A", "W", "all"]
-FM_TGT = ["S", "N", "AIS", "AMk", "BPS", "MIkS", "MIkN", "MMkIS", "Xk", "Xj", "Xkj", "AI", "A", "all"]
+FM_TGT = ["S", "N", "AIS", "AMk", "BPS", "MIkS", "MIkN", "MMkIS", "MMkPS", "MMkMk", "Xk", "Xj", "Xkj", "AI", "A", "all"]
 FM_VARS = ["nilB", "nilBP", "nokey", "nilM", "Xptr", "Xmap", "Xmapmap", "Xmapint", "Xstr", "Xnil", "AXint", "AXnil"]
 FM_SRC2 = ["S", "N", "AIS", "BPS", "Mk", "XIS", "AX", "AI", "W"]
 FM_TGT2 = ["S", "AIS", "AMk", "MIkS", "MIkN", "Xk", "Xj", "Xkj", "AI", "all"]
@@ -181,7 +181,16 @@ def fm_classify(case, reason, line):
     if r == "wrong-input" and case.get("var") == "sparse":
         return "wrong-input-sparse-chunks"
     if r == "wrong-input" and any(len(m["t"]) == 4 and m["t"][0] == "MM" for g in case["decl"] for m in g["maps"]):
-        return "map-elem-nested-struct-lost-update"
+        # which targets below the map element did not arrive?  (first run of the scope that delivered an input)
+        run = next((x for x in line["runs"] if x["mode"] == scope and x["kind"] == "ok"), None)
+        have = [e["p"] for e in run["in"]] if run else []
+        lost = [m["t"] for g in case["decl"] for m in g["maps"] if len(m["t"]) == 4 and m["t"][0] == "MM"
+                and not any(p[:4] == m["t"] for p in have)]
+        if any(t[2] in ("P", "M") for t in lost):
+            return "map-elem-ptr-or-map-field-lost-update"       # pointer / map field of a by-value map element: NOT the known D21 shape
+        if any(t[2] == "I" for t in lost):
+            return "map-elem-nested-struct-lost-update"
+        return "wrong-input-map-elem"
     if r == "missing-source-handled-differently":
         return "absent-key" if case["var"] in ("nokey", "nilM") else "missing-source-" + case["var"]
     return r
@@ -210,6 +219,8 @@ def c15(tier, repo=None):
     if tier == "quick":
         fams = [("m1", 1, FM_SRC, FM_TGT, FM_VARS, {}),
                 ("m3s", 3, ["S", "AI"], ["AIS", "AMk", "AI", "A"], [], {}),
+                # targets below an element of a map of structs BY VALUE: through a by-value struct field (D21), a pointer field, a map field
+                ("mme", 2, ["S", "AIS", "N"], ["MMkPS", "MMkMk", "MMkIS", "MIkS", "MIkN"], [], {}),
                 # whole-input AddInput (no mappings) before / after field mappings and next to another whole input, both orders
                 ("mw", 2, ["S", "W"], ["S", "AIS", "all"], [], {}),
                 # map[string]any predecessor, stream-native, dense or ONE KEY PER CHUNK; every mapping needs the run-time checker
@@ -221,6 +232,7 @@ def c15(tier, repo=None):
         fams = [("m1", 1, FM_SRC, FM_TGT, FM_VARS, {}),
                 ("m2", 2, FM_SRC, FM_TGT, FM_VARS, {"timeout": 1500}),
                 ("mw", 3, ["S", "W"], ["S", "AIS", "all"], [], {}),
+                ("mme", 3, ["S", "AIS", "N"], ["MMkPS", "MMkMk", "MMkIS", "MIkS", "MIkN"], [], {}),
                 ("mm", 3, FM_MAPSRC, FM_MAPTGT, [], {"kind": "map", "timeout": 1500}),
                 ("m3", 3, ["S", "AIS", "AX", "N", "AI"], ["AIS", "AMk", "AI", "A", "MIkS", "MIkN", "Xk", "Xkj", "all"], ["AXint"], {"timeout": 1500})]
         limit = {"m2": 40000, "m3": 30000, "mm": 15000}
